@@ -4,11 +4,12 @@ wt=$1; cd $wt || exit 2
 log=$wt/SEED/verify.log; : > $log
 say() { echo "$@" | tee -a $log; }
 demo() {  # run the demonstration, print exit code
-  if [ -f SEED/demo.sh ]; then (cd SEED && bash demo.sh >/dev/null 2>&1); echo $?
+  if [ -f SEED/run_demo.sh ]; then (cd SEED && sh run_demo.sh >/dev/null 2>&1); echo $?
+  elif [ -f SEED/demo.sh ]; then (cd SEED && bash demo.sh >/dev/null 2>&1); echo $?
   elif [ -f SEED/demo_gama_local.sh ]; then (cd SEED && bash demo_gama_local.sh > /dev/null 2>&1); echo $?
   else
     src=SEED/demo.cpp; [ -f SEED/demo_adj.cpp ] && src=SEED/demo_adj.cpp
-    g++ -std=c++17 -O1 -w -I$wt/lib $src $wt/lib/gnu_gama/adj/adj.cpp $wt/lib/gnu_gama/adj/adj_input_data.cpp $wt/lib/gnu_gama/adj/icgs.cpp -o /tmp/demo_$$ 2>>$log && /tmp/demo_$$ >/dev/null 2>&1; rc=$?; rm -f /tmp/demo_$$; echo $rc
+    g++ -std=c++17 -O1 -w -I$wt/lib $src $wt/lib/gnu_gama/adj/adj.cpp $wt/lib/gnu_gama/adj/adj_input_data.cpp $wt/lib/gnu_gama/adj/icgs.cpp $wt/lib/gnu_gama/gon2deg.cpp -o /tmp/demo_$$ 2>>$log && /tmp/demo_$$ >/dev/null 2>&1; rc=$?; rm -f /tmp/demo_$$; echo $rc
   fi
 }
 git -C $wt diff --stat -- lib src | tail -1 | tee -a $log
